@@ -226,14 +226,29 @@ async fn roundtrip_inner(input: &Value) -> Result<Value, String> {
 	let stages = input["stages"].as_array().cloned().unwrap_or_default();
 	let mut acc: Option<Account> = None;
 	for st in stages.iter() {
-		let contacts = contacts_of(if st["contacts"].is_null() { &input["contacts"] } else { &st["contacts"] });
-		let eab = eab_of(if st.get("eab").is_none() { &input["eab"] } else { &st["eab"] })?;
+		let contacts = contacts_of(if st["contacts"].is_null() {
+			&input["contacts"]
+		} else {
+			&st["contacts"]
+		});
+		let eab = eab_of(if st.get("eab").is_none() {
+			&input["eab"]
+		} else {
+			&st["eab"]
+		})?;
 		if let Some(a) = &acc {
 			a.save().await.map_err(|e| e.message)?;
 		}
-		let mut a = Account::load(&fm, name, &contacts, &opt_s(&st["key_type"]), &opt_s(&st["sig_alg"]), &eab)
-			.await
-			.map_err(|e| e.message)?;
+		let mut a = Account::load(
+			&fm,
+			name,
+			&contacts,
+			&opt_s(&st["key_type"]),
+			&opt_s(&st["sig_alg"]),
+			&eab,
+		)
+		.await
+		.map_err(|e| e.message)?;
 		shape(&mut a, &st["endpoints"])?;
 		acc = Some(a);
 	}
@@ -241,7 +256,9 @@ async fn roundtrip_inner(input: &Value) -> Result<Value, String> {
 	let before = dump(&a)?;
 	let inf = info(&a);
 	a.save().await.map_err(|e| e.message)?;
-	let bytes = crate::storage::get_account_data(&fm).await.map_err(|e| e.message)?;
+	let bytes = crate::storage::get_account_data(&fm)
+		.await
+		.map_err(|e| e.message)?;
 	Ok(json!({"before": before, "info": inf, "file_hex": hex(&bytes), "files": account_path(dir)}))
 }
 
@@ -267,7 +284,16 @@ pub async fn reload(input: &Value) -> Value {
 		Ok(e) => e,
 		Err(e) => return json!({"err": e}),
 	};
-	let after = match Account::load(&fm, name, &contacts, &opt_s(&input["key_type"]), &opt_s(&input["sig_alg"]), &eab).await {
+	let after = match Account::load(
+		&fm,
+		name,
+		&contacts,
+		&opt_s(&input["key_type"]),
+		&opt_s(&input["sig_alg"]),
+		&eab,
+	)
+	.await
+	{
 		Ok(a) => match dump(&a) {
 			Ok(d) => json!({"dump": d, "info": info(&a)}),
 			Err(e) => json!({"err": e}),
